@@ -333,3 +333,9 @@ PROPS["C11"]["mir"] += [ob("replace_keeps_old_blob", "ob_worker", "replace_keeps
                         ob("rotation_request_c11", "ob_worker", "rotation_request")]
 PROPS["C04"]["mir"] += [ob("replace_keeps_old_blob_c04", "ob_worker", "replace_keeps_old_blob")]
 PROPS["C14"]["mir"] += [ob("replace_keeps_old_blob_c14", "ob_worker", "replace_keeps_old_blob")]
+PROPS["C16"]["mir"].append(ob("reader_skip_position", "ob_tools", "reader_skip_position"))
+PROPS["C10"]["mir"].append(ob("storage_check_filters", "ob_filters", "storage_check_filters", kwargs={"B": 2}, thorough_kwargs={"B": 3}))
+PROPS["C03"]["mir"].append(ob("index_hash_checked", "ob_misc", "index_hash_checked"))
+PROPS["C06"]["mir"].append(ob("index_hash_checked_c06", "ob_misc", "index_hash_checked"))
+PROPS["C03"]["mir"].append(ob("regenerate_pushes_all", "ob_blob", "regenerate_pushes_all", kwargs={"N": 3}))
+PROPS["C06"]["mir"].append(ob("regenerate_pushes_all_c06", "ob_blob", "regenerate_pushes_all", kwargs={"N": 3}))
